@@ -256,6 +256,12 @@ func (d *Decoder) readMap(dest reflect.Value) error {
 		}
 		SetValue(dest, r)
 		return nil
+	case _objectDefTag:
+		// value ::= class-def value : a class definition may precede the map
+		if err := d.readAndAddClassDef(); err != nil {
+			return err
+		}
+		return d.readMap(dest)
 	case _mapTypedTag:
 		d.readString(_tagRead)
 	case _mapUntypedTag:
